@@ -9,12 +9,12 @@ typedef struct uint128_type compressed_ptr_pair_t;
 union cast_unit { compressed_ptr_pair_t value; tag_t tags[8]; };
 typedef union cast_unit cast_unit;
 /* constants read from the header by spec.py */
-static const size_t left_tag_index = LEFT_TAG_INDEX;
-static const size_t right_tag_index = RIGHT_TAG_INDEX;
-static const compressed_ptr_t ptr_mask = PTR_MASK;
+#if !defined(left_tag_index) || !defined(right_tag_index) || !defined(ptr_mask)
+#error "tagged_ptr_pair.hpp no longer defines left_tag_index / right_tag_index / ptr_mask"
+#endif
 struct tpp { compressed_ptr_pair_t pair_; };
 /* canonical user-space pointer: fits the 48-bit mask */
-#define CANON(p) (((p) & ~(uint64_t) PTR_MASK) == 0)
+#define CANON(p) (((p) & ~(uint64_t) ptr_mask) == 0)
 
 ptr_t extract_left_ptr(compressed_ptr_pair_t const *i)
 //@LIFT extract_left_ptr
@@ -47,8 +47,8 @@ static tag_t get_right_tag(struct tpp *self) { return extract_right_tag(&self->p
 
 #ifdef U_SET
 /* spec view of the 128-bit word (little endian: 16-bit lane 3 / 7 is the top of each half) */
-#define S_LPTR(p) ((p).left & (uint64_t) PTR_MASK)
-#define S_RPTR(p) ((p).right & (uint64_t) PTR_MASK)
+#define S_LPTR(p) ((p).left & (uint64_t) ptr_mask)
+#define S_RPTR(p) ((p).right & (uint64_t) ptr_mask)
 #define S_LTAG(p) ((uint64_t)(tag_t)((p).left >> 48))
 #define S_RTAG(p) ((uint64_t)(tag_t)((p).right >> 48))
 #define S_FIELD(k, p) ((k) == 0 ? S_LPTR(p) : (k) == 1 ? S_RPTR(p) : (k) == 2 ? S_LTAG(p) : S_RTAG(p))
@@ -57,8 +57,8 @@ static tag_t get_right_tag(struct tpp *self) { return extract_right_tag(&self->p
 void set_field(struct tpp *self, uint64_t v)
 __CPROVER_requires(CANON(v) || SET_IS_TAG)
 __CPROVER_ensures(S_FIELD(SET_WHICH, self->pair_) == (SET_IS_TAG ? (uint64_t)(tag_t) v : v))
-__CPROVER_ensures(SET_WHICH == 0 || S_LPTR(self->pair_) == (__CPROVER_old(self->pair_.left) & (uint64_t) PTR_MASK))
-__CPROVER_ensures(SET_WHICH == 1 || S_RPTR(self->pair_) == (__CPROVER_old(self->pair_.right) & (uint64_t) PTR_MASK))
+__CPROVER_ensures(SET_WHICH == 0 || S_LPTR(self->pair_) == (__CPROVER_old(self->pair_.left) & (uint64_t) ptr_mask))
+__CPROVER_ensures(SET_WHICH == 1 || S_RPTR(self->pair_) == (__CPROVER_old(self->pair_.right) & (uint64_t) ptr_mask))
 __CPROVER_ensures(SET_WHICH == 2 || S_LTAG(self->pair_) == (uint64_t)(tag_t)(__CPROVER_old(self->pair_.left) >> 48))
 __CPROVER_ensures(SET_WHICH == 3 || S_RTAG(self->pair_) == (uint64_t)(tag_t)(__CPROVER_old(self->pair_.right) >> 48))
 /* and the getters agree with the spec view */
